@@ -48,6 +48,36 @@ def swap_crypto(t, frm, to):
     return t
 
 
+def icv_table(ctx, rule):
+    """the ICV appended to (and compared at the end of) every protected message has the length RFC 7296 3.14 / RFC 2404 / RFC 4868
+    give for the negotiated integrity transform: 96 bits of HMAC-SHA1, 128 of HMAC-SHA2-256, 256 of HMAC-SHA2-512"""
+    prog = ctx.prog
+    integ = prog.cls('crypto.Integrity')
+    d = integ.lookup_attr('_digestmod_dict')
+    ctx.require(isinstance(d, ast.Dict), 'anchor vanished: Integrity._digestmod_dict')
+    have = {}
+    for k, v in zip(d.keys, d.values):
+        kid = prog.const_eval(k, integ.module, integ)
+        if isinstance(v, ast.Tuple) and len(v.elts) == 2:
+            have[int(kid)] = (src(v.elts[0]), prog.const_eval(v.elts[1], integ.module, integ))
+    want = {2: ('hashlib.sha1', 96), 12: ('hashlib.sha256', 128), 14: ('hashlib.sha512', 256)}
+    for k, v in want.items():
+        ctx.check(have.get(k) == v, rule, 'integrity transform %d uses %s with a %d-bit ICV' % (k, v[0], v[1]),
+                  key=(rule, 'table', k), site='crypto.py:%s' % d.lineno, detail={'found': have.get(k)})
+    hs = ctx.func('crypto.Integrity.hash_size')
+    ks = ctx.func('crypto.Integrity.key_size')
+    common.expect_term(ctx, rule, ctx.sval(hs), ctx.sval(hs).ret(), 'self.keybits // 8', 'ICV length = bits // 8', (rule, 'hash-size'),
+                       ctx.site(hs, hs.node))
+    common.expect_term(ctx, rule, ctx.sval(ks), ctx.sval(ks).ret(), 'self.hasher().digest_size', 'integrity key size = digest size',
+                       (rule, 'key-size'), ctx.site(ks, ks.node))
+    ii = ctx.func('crypto.Integrity.__init__')
+    II = ctx.sval(ii)
+    tr = ii.call_params()[0]
+    ctx.check(same(II.final('self.hasher') or NONE, II.expr('self._digestmod_dict[%s.id][0]' % tr)) and
+              same(II.final('self.keybits') or NONE, II.expr('self._digestmod_dict[%s.id][1]' % tr)), rule,
+              'Integrity takes (digest, ICV bits) of the negotiated transform', key=(rule, 'init'), site=ctx.site(ii, ii.node))
+
+
 def run(ctx):
     prog, res = ctx.prog, ctx.res
     esc = ctx.escape('engine', kills=common.engine_kills(ctx))
@@ -270,30 +300,7 @@ def run(ctx):
               'received messages are verified under peer_crypto', key=('E5', 'verify-keys'), site=ctx.site(pm, pm.node))
 
     # ---------------------------------------------------------------- E6
-    integ = prog.cls('crypto.Integrity')
-    d = integ.lookup_attr('_digestmod_dict')
-    ctx.require(isinstance(d, ast.Dict), 'anchor vanished: Integrity._digestmod_dict')
-    have = {}
-    for k, v in zip(d.keys, d.values):
-        kid = prog.const_eval(k, integ.module, integ)
-        if isinstance(v, ast.Tuple) and len(v.elts) == 2:
-            have[int(kid)] = (src(v.elts[0]), prog.const_eval(v.elts[1], integ.module, integ))
-    want = {2: ('hashlib.sha1', 96), 12: ('hashlib.sha256', 128), 14: ('hashlib.sha512', 256)}
-    for k, v in want.items():
-        ctx.check(have.get(k) == v, 'E6', 'integrity transform %d uses %s with a %d-bit ICV' % (k, v[0], v[1]),
-                  key=('E6', 'table', k), site='crypto.py:%s' % d.lineno, detail={'found': have.get(k)})
-    hs = ctx.func('crypto.Integrity.hash_size')
-    ks = ctx.func('crypto.Integrity.key_size')
-    common.expect_term(ctx, 'E6', ctx.sval(hs), ctx.sval(hs).ret(), 'self.keybits // 8', 'ICV length = bits // 8', ('E6', 'hash-size'),
-                       ctx.site(hs, hs.node))
-    common.expect_term(ctx, 'E6', ctx.sval(ks), ctx.sval(ks).ret(), 'self.hasher().digest_size', 'integrity key size = digest size',
-                       ('E6', 'key-size'), ctx.site(ks, ks.node))
-    ii = ctx.func('crypto.Integrity.__init__')
-    II = ctx.sval(ii)
-    tr = ii.call_params()[0]
-    ctx.check(same(II.final('self.hasher') or NONE, II.expr('self._digestmod_dict[%s.id][0]' % tr)) and
-              same(II.final('self.keybits') or NONE, II.expr('self._digestmod_dict[%s.id][1]' % tr)), 'E6',
-              'Integrity takes (digest, ICV bits) of the negotiated transform', key=('E6', 'init'), site=ctx.site(ii, ii.node))
+    icv_table(ctx, 'E6')
 
 
 MANIFEST = {
